@@ -4,7 +4,7 @@ set -e
 P=$1; T=$2; C=$3
 WT=$(mktemp -d /tmp/wt_XXXXXX); rmdir $WT
 git -C /repo worktree add -q $WT HEAD
-if [ -f "$C" ]; then git -C $WT apply "$C"; else (cd $WT && git revert --no-commit $C >/dev/null); fi
+if [ -f "$C" ]; then (git -C $WT apply "$C" 2>/dev/null || (cd $WT && patch -p1 -s -F3 --no-backup-if-mismatch < "$C")); else (cd $WT && git revert --no-commit $C >/dev/null); fi
 VERIF_EVIDENCE_DIR=/tmp/verif_scratch_evidence VERIF_REPLAY_DIR=/tmp/verif_scratch_replays VERIF_REPO=$WT ./check $P $T | tail -${4:-3} || true
 git -C /repo worktree remove --force $WT; git -C /repo worktree prune
 # restore VGen from the real tree
